@@ -829,7 +829,9 @@ def np_ptm1(
 
     """
     # Use smooth spectrum to define morphological boundaries
-    watershed_map = specpart.partition(spectrum_smooth.astype(np.float32), ihmax)
+    watershed_map = specpart.partition(
+        np.ascontiguousarray(spectrum_smooth, dtype=np.float32), ihmax
+    )
     nparts = watershed_map.max()
 
     # Wind sea mask
@@ -909,7 +911,9 @@ def np_ptm2(
 
     """
     # Use smooth spectrum to define morphological boundaries
-    watershed_map = specpart.partition(spectrum_smooth.astype(np.float32), ihmax)
+    watershed_map = specpart.partition(
+        np.ascontiguousarray(spectrum_smooth, dtype=np.float32), ihmax
+    )
     nparts = watershed_map.max()
 
     # Wind sea mask
@@ -979,7 +983,9 @@ def np_ptm3(
 
     """
     # Use smooth spectrum to define morphological boundaries
-    watershed_map = specpart.partition(spectrum_smooth.astype(np.float32), ihmax)
+    watershed_map = specpart.partition(
+        np.ascontiguousarray(spectrum_smooth, dtype=np.float32), ihmax
+    )
     nparts = watershed_map.max()
 
     # Assign partitioned arrays from raw spectrum and morphological boundaries
@@ -1051,7 +1057,9 @@ def np_hp01(
 
     """
     # Use smooth spectrum to define morphological boundaries
-    watershed_map = specpart.partition(spectrum_smooth.astype(np.float32), ihmax)
+    watershed_map = specpart.partition(
+        np.ascontiguousarray(spectrum_smooth, dtype=np.float32), ihmax
+    )
     nparts = watershed_map.max()
 
     # Assign partitioned arrays from raw spectrum and morphological boundaries
@@ -1144,7 +1152,9 @@ def np_hp01_wseabins(
 
     """
     # Use smooth spectrum to define morphological boundaries
-    watershed_map = specpart.partition(spectrum_smooth.astype(np.float32), ihmax)
+    watershed_map = specpart.partition(
+        np.ascontiguousarray(spectrum_smooth, dtype=np.float32), ihmax
+    )
     nparts = watershed_map.max()
 
     # Assign partitioned arrays from raw spectrum and morphological boundaries
@@ -1240,7 +1250,9 @@ def np_hp01_wseafrac_wseabins(
 
     """
     # Use smooth spectrum to define morphological boundaries
-    watershed_map = specpart.partition(spectrum_smooth.astype(np.float32), ihmax)
+    watershed_map = specpart.partition(
+        np.ascontiguousarray(spectrum_smooth, dtype=np.float32), ihmax
+    )
     nparts = watershed_map.max()
 
     # Assign partitioned arrays from raw spectrum and morphological boundaries
